@@ -62,6 +62,7 @@ type Server struct {
 	log           *slog.Logger
 	httpServer    *http.Server
 	referrerCache *cache.Cache[referrerKey, referrerResponses]
+	referrerMu    sync.Mutex // serializes updates of a manifest entry together with the referrers response listing it
 	rateLimit     *cache.Cache[string, *rateLimitEntry]
 }
 
